@@ -920,3 +920,47 @@ def gen_floor_procfirst(rng, idx, big=False):
 
 FAMILIES.update({'floorpf': gen_floor_procfirst, 'floorm': gen_floor_maint, 'floorb': gen_floor_batch, 'floorg': gen_floor_groups,
                  'floorp': gen_floor_pools, 'floors': gen_floor_special})
+
+
+# ------------------------------------------------------------------------ exhaustive enumerations
+import itertools
+
+ENVX_SCRIPTS = [
+    ['script', '0', 'pause', '-3'],
+    ['script', '1', 'unpause', '-3'],
+    ['script', '2', 'cancel', '-2'],
+    ['script', '3', 'schedrel', '4', '-3', '4', '28'],
+    ['script', '3', 'pause', '-2'],
+    ['script', '4', 'unpause', '-2'],
+]
+ENVX_ALPHABET = [
+    ['ext', 'sched', '8', '-2', '0', '28'], ['ext', 'sched', '8', '-3', '1', '19'], ['ext', 'sched', '4', '-2', '3', '28'],
+    ['ext', 'sched', '8', '-3', '2', '29'], ['ext', 'sched', '0', '-3', '4', '44'],
+    ['ext', 'pause', '-2'], ['ext', 'unpause', '-2'], ['ext', 'cancel', '-3'], ['step'], ['run', '4'], ['run', '8'],
+]
+RMX_SCRIPTS = [['script', '0', 'reserve', '1', '0:1'], ['script', '1', 'release', '0']]
+RMX_ALPHABET = [
+    ['ext', 'addres', '0', '2'], ['ext', 'addres', '0', '-1'], ['ext', 'addres', '1', '1'], ['ext', 'addres', '7', '-1'],
+    ['ext', 'reserve', '0', '0:1;1:1'], ['ext', 'reserve', '1', '0:2'], ['ext', 'reserve', '0', '0:1;1:-1'],
+    ['ext', 'release', '0'], ['ext', 'release', '0', '0:1'], ['ext', 'release', '1', '5:0;0:1'], ['ext', 'merge', '0', '1'],
+    ['ext', 'register', '0', '0:1'], ['ext', 'register', '1', '1:1'], ['run', '0'], ['run', '4'],
+]
+
+
+def enum_family(name, bound):
+    """all operation sequences up to length `bound` over a fixed alphabet (thorough tier)"""
+    scripts, alpha, tail = {
+        'envx': (ENVX_SCRIPTS, ENVX_ALPHABET, [['run', '40']]),
+        'rmx': (RMX_SCRIPTS, RMX_ALPHABET, [['run', '4']]),
+    }[name]
+    out = []
+    idx = 0
+    for n in range(1, bound + 1):
+        for seq in itertools.product(alpha, repeat=n):
+            L = [['scenario', str(idx)], ['seed', str(idx % 7), str([0, 2, 1000003][idx % 3])]] + scripts
+            if name == 'rmx':
+                L.append(['res', '0', '1'])
+            L += [list(x) for x in seq] + tail + [['end']]
+            out.append(L)
+            idx += 1
+    return out
